@@ -96,12 +96,7 @@ class AddrGroup(Base, Group):
         if isinstance(other, AddressAg):
             if other in self._items:
                 return True
-            for item in self._items:
-                if not isinstance(item, AddressAg):
-                    raise TypeError(f"{item=} {AddressAg} expected")
-                if other in item:
-                    return True
-            return False
+            return self._in_any_item(other)
 
         if isinstance(other, AddrGroup):
             for other_item in other.items:
@@ -109,15 +104,31 @@ class AddrGroup(Base, Group):
                     raise TypeError(f"{other_item=} {AddressAg} expected")
                 if other_item in self._items:
                     continue
-                for item in self._items:
-                    if not isinstance(item, AddressAg):
-                        raise TypeError(f"{item=} {AddressAg} expected")
-                    if other_item in item:
-                        break
-                else:
+                if not self._in_any_item(other_item):
                     return False
             return True
         raise TypeError(f"{other=} {UAddrGr} expected")
+
+    def _in_any_item(self, other: UAddrGr) -> bool:
+        """Return True if any of self.items contains `other`.
+
+        An item that cannot be asked (non-contiguous wildcard, nested address group)
+        does not hide the answer of other items, regardless of the order of items.
+        :raises TypeError: No one item contains `other` and some item cannot be asked.
+        """
+        for item in self._items:
+            if not isinstance(item, AddressAg):
+                raise TypeError(f"{item=} {AddressAg} expected")
+        error = None
+        for item in self._items:
+            try:
+                if other in item:
+                    return True
+            except TypeError as ex:
+                error = error or ex
+        if error:
+            raise error
+        return False
 
     # =========================== property ===========================
 
